@@ -1,6 +1,6 @@
 #!/venv/bin/python
 """Regenerate everything that is derived from /repo's working tree: the extracted constants (Generated/*.lean) and the
-machine-translated functions (Generated/Code.lean, CodeObj.lean, CodeObj2.lean, CodeObj3.lean, CodeObj4.lean, CodeObj5.lean)."""
+machine-translated functions (Generated/Code.lean, CodeObj.lean, CodeObj2.lean, CodeObj3.lean, CodeObj4.lean, CodeObj5.lean, CodeObj6.lean)."""
 import os
 import sys
 
@@ -12,11 +12,12 @@ import translate_obj2     # noqa: E402
 import translate_obj3     # noqa: E402
 import translate_obj4     # noqa: E402
 import translate_obj5     # noqa: E402
+import translate_obj6     # noqa: E402
 
 if __name__ == "__main__":
     extract.main()
     st = {}
-    for m in (translate, translate_obj, translate_obj2, translate_obj3, translate_obj4, translate_obj5):
+    for m in (translate, translate_obj, translate_obj2, translate_obj3, translate_obj4, translate_obj5, translate_obj6):
         st.update(m.main())
     bad = {k: v for k, v in st.items() if v != "ok"}
     print("regen: %d functions translated%s" % (len(st), "; FAILED: %s" % sorted(bad) if bad else ""))
